@@ -491,6 +491,14 @@ func runCheck(prop, tier string, nWorkers int, solverName, only, repo string, bu
 			if ins := d.nativeInputs[e.Name]; len(ins) > 0 {
 				tn := time.Now()
 				nr := d.nativeRun(e, ins)
+				if len(nr.failed) > 0 && nr.buildErr == "" {
+					// a disagreement must be reproducible to count (native runs see the real scheduler, clock
+					// granularity and random source): run the same inputs once more
+					if again := d.nativeRun(e, ins); len(again.failed) == 0 && again.buildErr == "" {
+						d.nativeLog = append(d.nativeLog, fmt.Sprintf("%s: a first native run disagreed on %d path(s) but an identical second run agreed on all (non-deterministic native behaviour, not counted)", e.Name, len(nr.failed)))
+						nr = again
+					}
+				}
 				d.nativeValidated += nr.ran
 				d.nativeLog = append(d.nativeLog, fmt.Sprintf("%s: %d sampled paths re-run natively (go test -overlay), %d agreed, %.1fs", e.Name, len(ins), nr.ran, time.Since(tn).Seconds()))
 				fmt.Fprintf(os.Stderr, "gosym: %s: native differential validation: %d/%d sampled paths agree (%.1fs)\n", e.Name, nr.ran, len(ins), time.Since(tn).Seconds())
